@@ -40,4 +40,49 @@ def graph_finder(scratch, failure):
     return out
 
 
+CRATE_FINDERS = {
+    # unit -> (host source file whose child module the finder becomes, finder test file)
+    "runplan": ("src/app/run.rs", "units/runplan/finder_test.rs"),
+}
+CACHE = os.path.join(U.VERIF, ".cache")
+
+
+def run_crate_finder(unit_name, scratch, only=None):
+    """append the unit's finder module to a scratch copy of /repo and run it with `cargo test` (real compiled code)"""
+    import shutil
+    host, test = CRATE_FINDERS[unit_name]
+    dst = os.path.join(scratch, "crate_" + unit_name)
+    if os.path.exists(dst):
+        shutil.rmtree(dst)
+    subprocess.run(["rsync", "-a", "--exclude", "target", "--exclude", ".git", U.REPO + "/", dst + "/"], check=True)
+    tpath = os.path.join(U.VERIF, test)
+    with open(os.path.join(dst, host), "a", encoding="utf-8") as fh:
+        fh.write('\n#[cfg(test)]\n#[path = "%s"]\nmod verif_finder;\n' % tpath)
+    env = dict(os.environ, CARGO_TARGET_DIR=os.path.join(CACHE, "target-finder"), CARGO_NET_OFFLINE="true")
+    os.makedirs(CACHE, exist_ok=True)
+    cmd = ["cargo", "test", "--offline", "--lib", "verif_finder::" + (only or "vf_"), "--", "--nocapture", "--test-threads", "1"]
+    r = subprocess.run(cmd, cwd=dst, env=env, capture_output=True, text=True, timeout=1800)
+    fails = re.findall(r"VF-FAIL (.*?) :: (.*)$", r.stdout, re.M)
+    sums = re.findall(r"VF-SUMMARY test=(\S+) checked=(\d+) nontrivial=(\d+) bad=(\d+)", r.stdout, re.M)
+    built = "Running unittests" in r.stderr or "running " in r.stdout
+    panics = re.findall(r"^test (\S+) \.\.\. FAILED", r.stdout, re.M)
+    shutil.rmtree(dst, ignore_errors=True)
+    return {"cmd": " ".join(cmd), "built": built, "build_error": None if built else r.stderr[-600:],
+            "summaries": [{"test": t, "checked": int(c), "nontrivial": int(n), "bad": int(b)} for t, c, n, b in sums],
+            "failures": [{"case": c, "why": w} for c, w in fails], "panicked_tests": panics}
+
+
+def crate_finder(unit_name):
+    def f(scratch, failure):
+        res = run_crate_finder(unit_name, scratch)
+        out = {"finder": "%s appended to a scratch copy of the crate as a child module of %s; `cargo test`; real compiled functions against the executable contract (bounded enumeration)" % (CRATE_FINDERS[unit_name][1], CRATE_FINDERS[unit_name][0]), "result": res}
+        if res["failures"]:
+            c = res["failures"][0]
+            out["input"] = {"case": c["case"], "why": c["why"], "rerun": "./check --run-finder %s" % unit_name}
+        return out
+    return f
+
+
 FINDERS = {"graph": graph_finder}
+for _u in CRATE_FINDERS:
+    FINDERS[_u] = crate_finder(_u)
